@@ -171,11 +171,12 @@ NoDoubleFree ==
         /\ \A id \in DOMAIN live \cap DOMAIN live' : live'[id] = live[id]
         /\ \A id \in DOMAIN live \ DOMAIN live' : id \in freed' ]_vars
 
-(* write permission only ever exists inside a window opened by Protect "W" *)
+(* a page becomes writable only by a Protect "W" step that covers it; a region disappears  *)
+(* only by an Unmap of exactly that mapping                                               *)
 WriteNeedsWindow ==
-  [][ \A r \in DOMAIN code' :
-        \A p \in code'[r].writable :
-           r \in DOMAIN code /\ (p \in code[r].writable \/ phase = "run") ]_vars
+  [][ /\ \A r \in DOMAIN code' : \A p \in code'[r].writable :
+            \/ r \in DOMAIN code /\ p \in code[r].writable
+            \/ \E o \in Offs, l \in Offs : Protect(r, o, l, "W") /\ p \in Pages(o, l)
+      /\ \A r \in DOMAIN code \ DOMAIN code' : phase' = "idle" \/ Unmap(r, 0, code[r].len) ]_vars
 
-StateBound == TRUE
 =============================================================================
